@@ -1,10 +1,11 @@
 PROP = dict(
     drivers=['IcyDraw'],
-        gens=['icy'],
-        lake=['IcyVerif.Props.C07'],
+        gens=['icy', 'icyfont'],
+        lake=['IcyVerif.Props.C07', 'IcyVerif.Props.C07Font'],
         ns='IcyVerif.C07',
         theorems=['cell_rt', 'invisible_cell_rt', 'row_rt', 'no_split', 'quantifier_fits', 'layer_rt', 'flags_rt',
-                  'header_rt', 'doc_rt', 'writer_loops_agree', 'short_marker_is_not_an_attribute',
+                  'header_rt', 'mode_tables_rt', 'mode_tables_total', 'doc_rt', 'psf2_source_shape', 'font_slot_rt', 'font_size_rt',
+                  'font_width_domain_exact', 'font_width_9_refused', 'psf2_codec_ok', 'doc_rt_psf2', 'writer_loops_agree', 'short_marker_is_not_an_attribute',
                   'pinned_writer_breaks'],
         harness='c07',
         design='DESIGN.md §4 C07',
@@ -14,7 +15,15 @@ PROP = dict(
                   'continuation chunks and the ICED header whose constants (flag bits, attribute markers, thresholds, '
                   'chunk budget, keywords, default palette) are regenerated from the source; differential '
                   'correspondence of writer bytes and reader results (incl. the Err outcome of every length check on malformed payloads) '
-                  'against the real crate, which is driven through Buffer::to_bytes("icy", lossless) / from_bytes',
+                  'against the real crate, which is driven through Buffer::to_bytes("icy", lossless) / from_bytes. '
+                  'Header modes: the to_byte / from_byte tables of BufferType, IceMode, PaletteMode, FontMode are regenerated from '
+                  'src/buffers.rs (variants, every arm, the `_` arm; any other shape fails the translation) and the round trip is proved '
+                  'for every variant over them (mode_tables_rt), from_byte total on all 256 bytes (mode_tables_total); the harness builds '
+                  'and observes the enums by variant, never through from_byte / to_byte. Font slots: the FONT_n payload codec is the real '
+                  'one (Model/IcyDrawFont.lean = string field + to_psf2_bytes / from_bytes of Model/Font.lean); font_slot_rt / doc_rt_psf2 '
+                  'discharge the font hypothesis of doc_rt for every width 1..=8, height 1..=255, complete glyph table, with the size part '
+                  'of the observation; font_width_domain_exact proves the width bound exact (any other width: written, then refused); '
+                  'psf2_source_shape pins the header fields written / read and which of them become size and glyph row count',
         thorough_exhaustive=True,
         rule='cases: EXHAUSTIVE small scope (every layer up to 2x2 in quick / 3x2 in thorough over 4 kinds of cell: short, long, invisible, invisible+attribute bit), hand-made boundary documents (invisible cells with extra bits, full rows, width/height 0, every '
              'short/long threshold, transparent colours, each flag alone, offsets +-50, default page 300, 6 layers + '
@@ -22,6 +31,18 @@ PROP = dict(
              'documents with SHORT_DATA-marked cells (model tie only), mutated layer payloads (incl. non-scalar character fields), cell data '
              'moved whole / cut / damaged / in pieces into LAYER_n~k continuation chunks, continuation chunks of undefined layers and mutated ICED headers fed to the '
              'real loader; thorough adds 1500x160 layers that are split into continuation chunks (model tie only); '
+             'SYSTEMATIC FAMILIES (one field at a time, both tiers): all 240 combinations of the four header modes; buffer sizes at every byte '
+             'boundary a renderable size reaches; font slots holding custom fonts of EVERY width 1..=8 x heights {1,2,8,14,16,32} (thorough: 1..=32) and '
+             'every height 1..=32, 256 and 512 glyphs, five glyph patterns, in slot 0 and in slots up to 300, UTF-8 names (+ widths 0/9/16/255 outside the '
+             'domain, model tie only); the font page of short and long cells and the default font page over 16 page slots (every bit and byte boundary '
+             'of the u16); every attribute bit alone and alone missing, short and long; every bit and byte boundary of both colours; 20 character '
+             'boundaries; transparency (quick: 45 values, thorough: all 256), every offset -50..=50, colour channels, all 3 x 32 mode/flag combinations, '
+             '16 titles incl. 256-byte / 4-byte-character ones, 12 layer sizes up to 200x120; palette sizes 1,2,15,16,17,255,256,257,299,300; SAUCE with '
+             'field lengths 0/1/max, all flag combinations, 0..255 comment lines; every byte value 0..=255 of each of the five mode bytes of the ICED '
+             'header against the real loader; FONT_n payloads damaged field by field (name length, version, flags, header size, length, charsize, '
+             'height, width 0..=17, PSF1 / raw containers, truncation); paste roles (written as Normal; model tie only); the exhaustive small scope '
+             'and the cell families run twice - through Layer::set_char and with Layer::lines / properties.offset written directly (the loader uses '
+             'set_char / set_offset itself); '
              'distinct_nontrivial = distinct documents saved and loaded',
         modelled='icy_draw.rs to_bytes (ICED header, LAYER_n payload: title, role, spare bytes, mode, colour+alpha, flags, '
                  'transparency, offset, size, default font page, data length, rows of short/long/invisible cells with the '
@@ -30,14 +51,22 @@ PROP = dict(
                  'announced data length, cell records of first and continuation chunks alike, invalid character, continuation chunk of an undefined layer - '
                  'in front of every index/slice, '
                  'Layer::set_char incl. lock/alpha behaviour, Line::set_char, flags applied after the cells, keyword '
-                 'dispatch); Layer::get_char, get_invisible_line_length',
+                 'dispatch); Layer::get_char, get_invisible_line_length; buffers.rs BufferType / IceMode / PaletteMode / FontMode to_byte and '
+                 'from_byte (tables regenerated) incl. the u16 / u8 casts of the buffer type and the initial modes of Buffer::new; the FONT_n chunk '
+                 'with its payload: write_utf8_encoded_string + BitFont::to_psf2_bytes, read_utf8_encoded_string + BitFont::from_bytes (PSF1 / PSF2 / raw '
+                 'sniffing, load_psf2 with every check, size = (width, height), glyphs cut by height) with every Err outcome, observed as name, width, '
+                 'height, length, glyph table',
         not_modelled='PNG container, zTXt/zlib, base64, preview image, keyword format!/parse (parameters: chunks in = chunks '
-                     'out; the harness walks the PNG with its own inflate/base64); payload codecs of PALETTE, FONT_n, SAUCE '
-                     '(parameters with round-trip hypotheses CodecsOk; C16/C17/C11) - their round trip is checked by the '
-                     'oracle on the real code only; image (sixel) layers; negative layer sizes; SAUCE creation date, '
-                     'use_ice, font name and buffer size inside the SAUCE record (derived from the buffer on save)',
-        assumptions=['layer titles are observed through String::from_utf8_lossy (the loader decodes titles lossily since the C10 repair); lossy decoding is the identity on valid UTF-8 (theorem IcyVerif.C10.lossy_id_on_valid), which WfLayer requires', 'palDec (palEnc p) = ok p; fontDec (fontName f) (fontData f) = ok f; sauceDec of the written SAUCE record '
-                     'returns an equivalent record (hypotheses of doc_rt, exercised on the real code by the oracle)',
+                     'out; the harness walks the PNG with its own inflate/base64); payload codecs of PALETTE and SAUCE '
+                     '(parameters with round-trip hypotheses CodecsOk; C16/C11) - their round trip is checked by the '
+                     'oracle on the real code only; image (sixel) layers; paste roles (PastePreview / PasteImage are written as Normal: transient '
+                     'editor states, tied but outside the oracle); negative layer sizes; SAUCE creation date, '
+                     'use_ice, font name and buffer size inside the SAUCE record (derived from the buffer on save); fonts whose width is not 1..=8 '
+                     '(a glyph row is one byte; such a font is written and then refused by the reader - font_width_domain_exact) or whose glyph '
+                     'table is incomplete (to_psf2_bytes().unwrap() panics)',
+        assumptions=['layer titles are observed through String::from_utf8_lossy (the loader decodes titles lossily since the C10 repair); lossy decoding is the identity on valid UTF-8 (theorem IcyVerif.C10.lossy_id_on_valid), which WfLayer requires', 'palDec (palEnc p) = ok p; sauceDec of the written SAUCE record '
+                     'returns an equivalent record (hypotheses of doc_rt / doc_rt_psf2, exercised on the real code by the oracle); the font '
+                     'hypothesis of doc_rt is discharged by doc_rt_psf2 for slot fonts of width 1..=8, height 1..=255 with a complete glyph table',
                      'a visible cell does not carry attribute::SHORT_DATA (declared "for loading & saving only")',
                      'documents have a font in slot 0 (Buffer::new puts it there; get_font_dimensions panics without it)'],
         trusted_extra=['hand-written PNG chunk walker, inflate and base64 in harness/src/c07.rs (independent of the png/base64 crates)'],
